@@ -57,11 +57,26 @@ theorem starts_encInt (n : Int) : Starts (encInt n) := by
       refine ⟨d, ds, rfl, ?_, by omega, by omega, by omega, by omega⟩
       simp [isWs]; omega
 
+theorem starts_natDigits (n : Nat) (X : Str) : Starts (natDigits n ++ X) := by
+  rcases Nat.eq_zero_or_pos n with h | h
+  · rw [h, natDigits_zero]; exact ⟨48, _, rfl, by decide⟩
+  · obtain ⟨d, ds, e, h1, h2⟩ := natDigits_head _ h
+    rw [e]
+    refine ⟨d, ds ++ X, rfl, ?_, by omega, by omega, by omega, by omega⟩
+    simp [isWs]; omega
+
+theorem starts_ftext (f : FT) : Starts f.text := by
+  unfold FT.text
+  split
+  · exact ⟨45, _, rfl, by decide⟩
+  · exact starts_natDigits _ _
+
 theorem starts_render (o : Opts) (lvl : Nat) (v : JV) : Starts (render o lvl v) := by
   cases v with
   | null => simp only [render]; exact ⟨110, _, rfl, by decide⟩
   | bool b => cases b <;> simp only [render] <;> exact ⟨_, _, rfl, by decide⟩
   | int n => simp only [render]; exact starts_encInt n
+  | float f => simp only [render]; exact starts_ftext f
   | str s => simp only [render, encStr]; exact ⟨34, _, rfl, by decide⟩
   | arr xs => cases xs <;> simp only [render] <;> exact ⟨91, _, rfl, by decide⟩
   | obj ms => cases ms <;> simp only [render] <;> exact ⟨123, _, rfl, by decide⟩
@@ -154,21 +169,88 @@ theorem parseV_true (f : Nat) (rest : Str) : parseV (f + 1) (116 :: 114 :: 117 :
 theorem parseV_false (f : Nat) (rest : Str) : parseV (f + 1) (102 :: 97 :: 108 :: 115 :: 101 :: rest) = .ok (.bool false, rest) := by
   rw [parseV]; simp [startsWith]
 
-theorem parseV_neg (f : Nat) (s : Str) {n : Nat} {r : Str} (h : headIs 73 s = false) (h1 : parseNat s = .ok (n, r)) :
-    parseV (f + 1) (45 :: s) = .ok (.int (-(n : Int)), r) := by
+theorem parseV_neg (f : Nat) (s : Str) (h : headIs 73 s = false) : parseV (f + 1) (45 :: s) = parseNumber true s := by
   rw [parseV]
   have : startsWith [73, 110, 102, 105, 110, 105, 116, 121] s = false := by
     cases s with
     | nil => rfl
     | cons c t => simp [headIs] at h; simp [startsWith, h]
-  simp [this, h1]
+  simp [this]
 
-theorem parseV_digit (f d : Nat) (s : Str) {n : Nat} {r : Str} (h : isDigit d = true) (h1 : parseNat (d :: s) = .ok (n, r)) :
-    parseV (f + 1) (d :: s) = .ok (.int n, r) := by
+theorem parseV_digit (f d : Nat) (s : Str) (h : isDigit d = true) : parseV (f + 1) (d :: s) = parseNumber false (d :: s) := by
   simp only [isDigit, Bool.and_eq_true, decide_eq_true_eq] at h
   rw [parseV]
   rw [if_neg (by omega), if_neg (by omega), if_neg (by omega), if_neg (by omega), if_neg (by omega), if_neg (by omega),
-    if_neg (by omega), if_neg (by omega), if_neg (by omega), h1]
+    if_neg (by omega), if_neg (by omega), if_neg (by omega)]
+
+/-- an integer text followed by something that does not continue a number -/
+theorem parseNumber_int (neg : Bool) (n : Nat) (rest : Str) (hr : Term rest) :
+    parseNumber neg (natDigits n ++ rest) = .ok (.int (if neg then -(n : Int) else n), rest) := by
+  unfold parseNumber
+  rw [parseNat_natDigits n rest hr.noDigit]
+  have h1 := scanFrac_none rest (fun c r e => (hr c r e).2.1)
+  have h2 := scanExp_none rest (fun c r e => ⟨(hr c r e).2.2.1, (hr c r e).2.2.2⟩)
+  simp only [h1, h2, and_self, if_true]
+
+theorem noDigit_exp (ex : Option (Nat × Option Nat × List Nat)) (rest : Str) (hr : Term rest)
+    (he : ∀ e sg ds, ex = some (e, sg, ds) → e = 101 ∨ e = 69) : NoDigit (expText ex ++ rest) := by
+  cases ex with
+  | none => exact hr.noDigit
+  | some t =>
+    obtain ⟨e, sg, ds⟩ := t
+    intro c r h
+    simp only [expText, List.cons_append, List.cons.injEq] at h
+    rcases he e sg ds rfl with rfl | rfl <;> (rw [← h.1]; decide)
+
+/-- a float text followed by something that does not continue a number -/
+theorem parseNumber_float (f : FT) (hok : f.ok = true) (rest : Str) (hr : Term rest) :
+    parseNumber f.neg (natDigits f.ip ++ ((if f.frac = [] then [] else 46 :: f.frac) ++ expText f.expo) ++ rest) = .ok (.float f, rest) := by
+  obtain ⟨neg, ip, fr, ex⟩ := f
+  simp only [FT.ok, Bool.and_eq_true, Bool.or_eq_true, bne_iff_ne, ne_eq, List.all_eq_true] at hok
+  obtain ⟨⟨hpres, hfd⟩, hex⟩ := hok
+  have hE : ∀ e sg ds, ex = some (e, sg, ds) → (e = 101 ∨ e = 69) ∧ (sg = none ∨ sg = some 43 ∨ sg = some 45) ∧ ds ≠ [] ∧ ∀ d ∈ ds, isDigit d = true := by
+    intro e sg ds h
+    subst h
+    simp only [Bool.and_eq_true, Bool.or_eq_true, beq_iff_eq, bne_iff_ne, ne_eq, List.all_eq_true] at hex
+    exact ⟨hex.1.1.1, or_assoc.mp hex.1.1.2, hex.1.2, hex.2⟩
+  have hnd : NoDigit (expText ex ++ rest) := noDigit_exp ex rest hr (fun e sg ds h => (hE e sg ds h).1)
+  simp only [List.append_assoc]
+  unfold parseNumber
+  have hfracND : NoDigit ((if fr = [] then [] else 46 :: fr) ++ (expText ex ++ rest)) := by
+    by_cases hf : fr = []
+    · simp only [hf, if_true, List.nil_append]; exact hnd
+    · simp only [hf, if_false, List.cons_append]; intro c r h; simp only [List.cons.injEq] at h; rw [← h.1]; decide
+  rw [parseNat_natDigits ip _ hfracND]
+  -- the fraction
+  have hfrac : scanFrac ((if fr = [] then [] else 46 :: fr) ++ (expText ex ++ rest)) = (fr, expText ex ++ rest) := by
+    by_cases hf : fr = []
+    · simp only [hf, if_true, List.nil_append]
+      apply scanFrac_none
+      intro c r h
+      cases ex with
+      | none => simp only [expText, List.nil_append] at h; exact (hr c r h).2.1
+      | some t =>
+        obtain ⟨e, sg, ds⟩ := t
+        simp only [expText, List.cons_append, List.cons.injEq] at h
+        rcases (hE e sg ds rfl).1 with rfl | rfl <;> (rw [← h.1]; decide)
+    · simp only [hf, if_false, List.cons_append]
+      exact scanFrac_some fr _ hf hfd hnd
+  -- the exponent
+  have hexp : scanExp (expText ex ++ rest) = (ex, rest) := by
+    cases ex with
+    | none => simp only [expText, List.nil_append]; exact scanExp_none rest (fun c r e => ⟨(hr c r e).2.2.1, (hr c r e).2.2.2⟩)
+    | some t =>
+      obtain ⟨e, sg, ds⟩ := t
+      obtain ⟨h1, h2, h3, h4⟩ := hE e sg ds rfl
+      simp only [expText, List.cons_append, List.append_assoc]
+      exact scanExp_some e sg ds rest h1 h2 h3 h4 hr.noDigit
+  simp only [hfrac, hexp]
+  have : ¬ (fr = [] ∧ ex = none) := by
+    intro h
+    rcases hpres with h1 | h1
+    · exact h1 h.1
+    · rw [h.2] at h1; cases h1
+  rw [if_neg this]
 
 theorem parseTail_nil (f : Nat) (s : Str) (h0 : headIs 44 (skipWs s) = false) (h : headIs 93 (skipWs s) = true) :
     parseTail (f + 1) s = .ok (.nil, (skipWs s).tail) := by
